@@ -140,6 +140,11 @@ def valid_program(rng, sim, d, cutoff):
             g = G.gate(rng, str(rng.choice(pool)), d, active_scale=0.3, disp_scale=0.5)
             if g is not None:
                 ins.append(g)
+        if rng.random() < 0.15:
+            # a channel that is valid by the documented inequality Y + i*Omega >= i*X*Omega*X^T
+            x = float(rng.choice([1.0, 0.8, 0.5, 1.2]))
+            ins.append({"t": "DeterministicGaussianChannel", "m": [int(rng.integers(0, d))],
+                        "p": {"X": M.enc(x * np.eye(2)), "Y": M.enc(abs(1 - x * x) * float(rng.choice([1.0, 1.5])) * np.eye(2))}})
         r = rng.random()
         shots = 3
         if r < 0.2:
